@@ -36,7 +36,7 @@ def shards(tier):
 def required_counters(tier):
     return {'judged:class': 200, 'judged:param': 500, 'judged:meta': 200, 'judged:membership-sky-vs-pixel': 500,
             'judged:membership-pixel-vs-sky': 500, 'judged:text-rotation': 5, 'lane:pix2sky2pix:CompoundPixelRegion': 3,
-            'lane:sky2pix2sky:CompoundSkyRegion': 3, 'history-steps': 50, 'judged:history': 50}
+            'lane:sky2pix2sky:CompoundSkyRegion': 3, 'history-steps': 50, 'judged:history': 50, 'grid-sky-queries': 100, 'wide-field-cases': 8}
 
 
 def generate(rng, tier, shard, nshards):
@@ -87,6 +87,14 @@ def generate(rng, tier, shard, nshards):
                 reg = sleaf()
                 lane = 'sky2pix2sky:' + reg['cls']
             yield {'lane': lane, 'skyreg': reg, 'wcs': w, 'rs': rng.randrange(2 ** 31)}
+            if i % 12 == 5:
+                # wide fields: regions tens of degrees across on a coarse zenithal image (edges are long arcs on the sky)
+                w2 = gen.wcs_spec(rng, proj=rng.choice(['TAN', 'SIN']), scale=rng.uniform(0.05, 0.15))
+                fr2 = w2['frame'] if rng.random() < 0.65 else rng.choice(gen.SKY_FRAMES)
+                cls2 = rng.choice(gen.SKY_SIMPLE + ['PolygonSkyRegion', 'PolygonSkyRegion'])
+                reg2 = {'pending': True, 'cls': cls2, 'dx': rng.uniform(-60, 60), 'dy': rng.uniform(-60, 60),
+                        'size_deg': rng.uniform(80, 220) * w2['scale'], 'seed': rng.randrange(2 ** 31), 'frame': fr2}
+                yield {'lane': 'sky2pix2sky:wide:' + cls2, 'skyreg': reg2, 'wcs': w2, 'rs': rng.randrange(2 ** 31)}
 
 
 def _shift_line(sp, c):
@@ -176,11 +184,17 @@ def compare_regions(obs, a, b, what, wcs=None, weak=False):
                 obs.check(va == vb, 'roundtrip-text-changed', f'{what}.text {va!r} -> {vb!r}', 'param')
             elif isinstance(va, PixCoord):
                 tol = 1e-6 * max(L or 1.0, 1.0)
+                if np.shape(va.x) != np.shape(vb.x):
+                    obs.violation('roundtrip-position-changed', f'{what}.{p} has shape {np.shape(vb.x)} after the round trip, {np.shape(va.x)} before')
+                    continue
                 d = np.hypot(np.asarray(va.x, dtype=float) - np.asarray(vb.x, dtype=float), np.asarray(va.y, dtype=float) - np.asarray(vb.y, dtype=float))
                 obs.check(np.shape(va.x) == np.shape(vb.x) and bool(np.all(d <= tol)), 'roundtrip-position-changed',
                           f'{what}.{p} moved by {np.max(d):.3g} px (tolerance {tol:.3g})', 'param')
             elif isinstance(va, SkyCoord):
                 same_frame = va.frame.name == vb.frame.name
+                if np.shape(va.data.lon) != np.shape(vb.data.lon):
+                    obs.violation('roundtrip-sky-position-changed', f'{what}.{p} has shape {np.shape(vb.data.lon)} after the round trip, {np.shape(va.data.lon)} before')
+                    continue
                 sep = va.separation(vb.transform_to(va.frame) if not same_frame else vb).deg
                 if not np.all(np.isfinite(np.asarray(sep))):
                     obs.skip(1, 'offsky')          # an end point outside the projection's domain: nothing to compare
@@ -280,6 +294,21 @@ def membership_checks(obs, pix, sky, w, case):
         obs.check(bool(s_i) == bool(exp_b[i]) and bool(p_i) == bool(exp_b[i]) and np.ndim(s_i) == 0, 'scalar-membership-differs-from-array-membership',
                   f'{type(sky).__name__}.contains(scalar position) gave {s_i!r}, its pixel image {p_i!r}, the array query {bool(exp_b[i])} '
                   f'(include={dict.get(sky.meta, "include", "absent")!r})', 'membership-sky-vs-pixel')
+    # (1c) positions on a grid (an N-D SkyCoord): shape and values of the answer are those of the pixel image for the converted grid
+    k = px.size // 2
+    if k >= 1:
+        shp = (2, k) if case['rs'] % 3 else (k, 1, 2)
+        sc2 = sc[:2 * k].reshape(shp)
+        g2 = sky.contains(sc2, w)
+        e2 = pimg.contains(PixCoord.from_sky(sc2, w))
+        obs.count('grid-sky-queries')
+        if np.shape(got) == () and np.shape(g2) == ():
+            g2 = np.broadcast_to(g2, np.shape(e2))      # point-like sky regions answer any query with one plain bool (also the 1-D query above)
+        same = np.shape(g2) == np.shape(e2) and bool(np.all((np.asarray(g2) == np.asarray(e2)) | ~np.broadcast_to(dec[:2 * k].reshape(shp), np.shape(e2))
+                                                            if np.shape(e2) == shp else np.asarray(g2) == np.asarray(e2)))
+        obs.check(same, 'grid-membership-differs-from-pixel-image',
+                  f'{type(sky).__name__}.contains(positions of shape {shp}) gave an answer of shape {np.shape(g2)}; its pixel image asked about the converted '
+                  f'positions answers with shape {np.shape(e2)}' + ('' if np.shape(g2) != np.shape(e2) else ' and other values'), 'membership-sky-vs-pixel')
     # (2) pixel region asked about p == its sky conversion asked about the sky image of p
     gp = np.broadcast_to(np.asarray(pix.contains(pc)), px.shape)
     gs = np.broadcast_to(np.asarray(pix.to_sky(w).contains(sc, w)), px.shape)
@@ -341,6 +370,8 @@ def run_case(case, obs):
         results_independent(obs, pix, [sky, back, pix.to_sky(w)], 'pixel->sky->pixel')
     else:
         sky = build_sky(case['skyreg'], w)
+        if ':wide:' in case['lane']:
+            obs.count('wide-field-cases')
         fp0 = S.fingerprint(sky)
         pix = sky.to_pixel(w)
         check_counterpart(obs, sky, pix, 'to_pixel')
